@@ -1,7 +1,7 @@
 CONSTANTS Cfgs <- Cfgs23
 KMask = 2
 MaskMod = 0
-MaxBits = 4
+MaxBits = 3
 Modes <- BothModes
 EmitOn = TRUE
 INIT Init
